@@ -607,8 +607,13 @@ func genSlip10() {
 	g.def("publicKeySize", "Int", p.intConst("PublicKeySize"))
 	g.src(p, "NewMasterKey", "DeriveKeyFromPath", "ExtendedKey.DeriveChild", "ExtendedKey.IsPrivate", "ExtendedKey.Public",
 		"ExtendedKey.Fingerprint", "uint32Bytes", "hmacSHA512", "hash160")
-	g.src(el, "Curve.NewPrivateKey", "secp256k1Curve.HmacKey", "nist256p1Curve.HmacKey", "PrivateKey.Bytes", "PrivateKey.IsPrivate",
-		"PrivateKey.Public", "PrivateKey.Shift", "PublicKey.Bytes", "PublicKey.IsPrivate", "PublicKey.Public", "PublicKey.Shift")
+	// Curve.NewPrivateKey, PrivateKey.Shift, PublicKey.Shift are translated as code by genEllipticKeyCode (stage 13,
+	// loops_key.go) and tied in Iota/Tie/EllipticKeyCode.lean: not pinned by text any more
+	for _, n := range []string{"Curve.NewPrivateKey", "PrivateKey.Shift", "PublicKey.Shift"} {
+		pinnedFns[el.method(n)] = true
+	}
+	g.src(el, "secp256k1Curve.HmacKey", "nist256p1Curve.HmacKey", "PrivateKey.Bytes", "PrivateKey.IsPrivate",
+		"PrivateKey.Public", "PublicKey.Bytes", "PublicKey.IsPrivate", "PublicKey.Public")
 	g.src(ed, "ed25519Curve.NewPrivateKey", "ed25519Curve.HmacKey", "Seed.Bytes", "Seed.IsPrivate", "Seed.Public", "Seed.HardenedOnly",
 		"Seed.Shift", "PublicKey.Bytes", "PublicKey.IsPrivate", "PublicKey.Public", "PublicKey.HardenedOnly", "PublicKey.Shift")
 	g.rest(p, "slip10")
